@@ -177,6 +177,11 @@ fn a_len_gt1(v: &[Value]) -> bool {
     !v.is_empty()
 }
 
+/// Error-class slug of a native verifier error (first alphabetic words, no numbers).
+fn native_slug(e: &str) -> String {
+    e.split(|c: char| !c.is_alphabetic()).filter(|w| w.len() > 2).take(3).collect::<Vec<_>>().join("")
+}
+
 fn first_word(e: &str) -> String {
     e.split(|c: char| !c.is_alphanumeric()).find(|x| !x.is_empty()).unwrap_or("x").to_string()
 }
@@ -206,13 +211,23 @@ pub fn run_case<R: RecUni>(spec: &ShapeSpec, proof_tree: &Value, honest_common: 
                 if c.panicked() {
                     return ("run_panic".into(), Some((format!("panic_run:uni:{}:{class}", f.kind), format!("packing/running the built circuit panicked on {} at {}: {}", f.kind, tree::path_str(&f.path), c.msg().chars().take(200).collect::<String>()))));
                 }
+                if let Err(e) = &n {
+                    if e.contains("InvalidProofShape") {
+                        // the native verifier itself classifies the mutant as structurally malformed:
+                        // the builder must have refused it
+                        return (
+                            "builder_accepts_malformed".into(),
+                            Some((format!("builder_accepts_malformed:uni:{}:{class}", f.kind), format!("{} at {}: native verifier rejects the proof as malformed ({}), the circuit builder returned Ok", f.kind, tree::path_str(&f.path), e.chars().take(160).collect::<String>()))),
+                        );
+                    }
+                }
                 if c.accepts() && n.is_err() {
                     (
                         "weaker_circuit".into(),
                         Some((format!("weaker:uni:{}:{class}", f.kind), format!("{} at {}: builder returned Ok, circuit accepts, native rejects ({})", f.kind, tree::path_str(&f.path), n.err().unwrap_or_default().chars().take(160).collect::<String>()))),
                     )
                 } else {
-                    (format!("built_ok_circuit_{}_native_{}", c.class(), if n.is_ok() { "accept" } else { "reject" }), None)
+                    (format!("built_ok_circuit_{}_native_{}", c.class(), match &n { Ok(()) => "accept".to_string(), Err(e) => format!("reject_{}", native_slug(e)) }), None)
                 }
             }
         }
@@ -234,13 +249,23 @@ pub fn run_case<R: RecUni>(spec: &ShapeSpec, proof_tree: &Value, honest_common: 
                 if c.panicked() {
                     return ("run_panic".into(), Some((format!("panic_run:batch:{}:{class}", f.kind), format!("packing/running the built circuit panicked on {} at {}: {}", f.kind, tree::path_str(&f.path), c.msg().chars().take(200).collect::<String>()))));
                 }
+                if let Err(e) = &n {
+                    if e.contains("InvalidProofShape") {
+                        // the native verifier itself classifies the mutant as structurally malformed:
+                        // the builder must have refused it
+                        return (
+                            "builder_accepts_malformed".into(),
+                            Some((format!("builder_accepts_malformed:batch:{}:{class}", f.kind), format!("{} at {}: native verifier rejects the proof as malformed ({}), the circuit builder returned Ok", f.kind, tree::path_str(&f.path), e.chars().take(160).collect::<String>()))),
+                        );
+                    }
+                }
                 if c.accepts() && n.is_err() {
                     (
                         "weaker_circuit".into(),
                         Some((format!("weaker:batch:{}:{class}", f.kind), format!("{} at {}: builder returned Ok, circuit accepts, native rejects ({})", f.kind, tree::path_str(&f.path), n.err().unwrap_or_default().chars().take(160).collect::<String>()))),
                     )
                 } else {
-                    (format!("built_ok_circuit_{}_native_{}", c.class(), if n.is_ok() { "accept" } else { "reject" }), None)
+                    (format!("built_ok_circuit_{}_native_{}", c.class(), match &n { Ok(()) => "accept".to_string(), Err(e) => format!("reject_{}", native_slug(e)) }), None)
                 }
             }
         }
